@@ -112,12 +112,15 @@ def _try_replay(ex, ob, rec):
     except Exception as e:
         rec["finst_error"] = str(e)[:300]
     last = None
+    attempts = []
+    rec["replay_attempts"] = attempts
     for (src, m) in cands[:6]:
         try:
             r = creplay.replay(ex, m, ob.kind)
         except Exception as e:
             r = {"failed_on_real_code": False, "error": "%s" % e, "trace": traceback.format_exc()[-800:]}
         r["model_source"] = src
+        attempts.append({k_: str(v_)[:160] for k_, v_ in r.items() if k_ not in ("input", "stderr_tail", "trace")})
         last = r
         if r.get("failed_on_real_code"):
             break
